@@ -2,7 +2,8 @@ from checks import apifam, concfam
 GUARDS = {"WalkCount", "WalkEveryLiveOnce", "WalkOnlyLive", "WalkRangesDisjoint", "AreaUsedCount", "AreasCoverAll", "StopsWhenFalse"}
 def run(tier, seed):
     # heap walking over histories with hole patterns, full pages (bulk groups), huge blocks, several heaps
-    V, cov = apifam.run_api("C12", tier, seed, profiles=["c12", "bulk", "c12"], builds=["rel", "dbg", "sec"], own_guards=GUARDS, gen=(12, 100), finish=False)
+    V, cov = apifam.run_api("C12", tier, seed, profiles=["c12", "bulk", "c12"], builds=["rel", "dbg", "sec"], own_guards=GUARDS, gen=(12, 100), finish=False,
+                          extra_runs=[{"_args": ["--scenario", "walkholes"], "_tag": "walkholes"}])      # pages of many small blocks with holes in every pattern of the 64-block groups
     # abandoned blocks: threads exit leaving blocks behind; mi_abandoned_visit_blocks must report exactly them, stop on false, and stay complete afterwards
     va = {"MIMALLOC_VISIT_ABANDONED": "1"}
     va_os = {"MIMALLOC_VISIT_ABANDONED": "1", "MIMALLOC_DISALLOW_ARENA_ALLOC": "1"}
